@@ -9,7 +9,7 @@ use crate::tokseam::*;
 use serde_json::{Value, json};
 use std::collections::HashMap;
 
-const RULE: &str = "tag soup: every string over F (len<=k) and 14 HTML-namespace contexts x F (len<=k-1), without svg/math; foreign content: every document of the well-nested grammar G with <=n nodes. For each input: html5ever 0.39 Tokenizer+TreeBuilder(RcDom) token list W; the implementation's token list through the TransformController seam under capture sets {all, each single kind, none} x strict{t,f} x L0 + every 1-cut, and through public handlers (document-level all + element(*) + on_end_tag). Oracles: strict success => tokens == W (filtered to the captured kinds), output == input, identical to non-strict; strict failure => ParsingAmbiguity at a text-mode-switching start tag for which R-guard (select / template-in-select / frameset context, from the tag sequence) holds. non-trivial = distinct input whose W has >= 2 tokens";
+const RULE: &str = "tag soup: every string over F (len<=k) and 14 HTML-namespace contexts x F (len<=k-1), without svg/math; foreign content: every document of the well-nested grammar G with <=n nodes. For each input: html5ever 0.39 Tokenizer+TreeBuilder(RcDom) token list W; the implementation's token list through the TransformController seam under capture sets {all, each single kind, none} x strict{t,f} x L0 + every 1-cut, and through public handlers (document-level all + element(*) + on_end_tag). Oracles: strict success => tokens == W (filtered to the captured kinds), output == input, identical to non-strict; strict failure => ParsingAmbiguity at a text-mode-switching start tag for which R-guard (select / template-in-select / frameset context, from the tag sequence) holds; a text-mode-switching start tag inside those contexts => the strict run must fail there (also over a 17-fragment guard alphabet up to length 5/6). non-trivial = distinct input whose W has >= 2 tokens";
 
 const TEXT_SWITCH: &[&str] = &[
     "textarea", "title", "plaintext", "script", "style", "iframe", "xmp", "noembed", "noframes", "noscript",
@@ -84,6 +84,55 @@ fn r_guard(tags: &[(String, bool)]) -> Result<(), String> {
     }
 }
 
+/// The other direction ("ambiguity is refused"): index into `tags` of the first start tag at
+/// which a strict run MUST fail — a text-mode-switching start tag inside select (template in
+/// select included; `<script>` directly in select is allowed; `<select>`, `<textarea>`, `<input>`
+/// and `<keygen>` directly in select leave it) or anywhere after a `<frameset>` start tag seen
+/// outside select (`<noframes>` allowed). Written from the statement and the documented contexts.
+fn first_must_refuse(tags: &[(String, bool)]) -> Option<usize> {
+    let mut in_select = false;
+    let mut tdepth = 0usize;
+    let mut frameset = false;
+    // templates open outside select: a select opened inside one is closed by its end tag
+    let mut outer_templates = 0usize;
+    for (i, (name, start)) in tags.iter().enumerate() {
+        let n = name.as_str();
+        if frameset {
+            if *start && n != "noframes" && TEXT_SWITCH.contains(&n) {
+                return Some(i);
+            }
+            continue;
+        }
+        if !in_select {
+            match (n, *start) {
+                ("select", true) => {
+                    in_select = true;
+                    tdepth = 0;
+                }
+                ("frameset", true) => frameset = true,
+                ("template", true) => outer_templates += 1,
+                ("template", false) => outer_templates = outer_templates.saturating_sub(1),
+                _ => {}
+            }
+            continue;
+        }
+        match (n, *start) {
+            ("template", false) if tdepth == 0 && outer_templates > 0 => {
+                outer_templates -= 1;
+                in_select = false;
+            }
+            ("select" | "textarea" | "input" | "keygen", true) if tdepth == 0 => in_select = false,
+            ("select", false) if tdepth == 0 => in_select = false,
+            ("template", true) => tdepth += 1,
+            ("template", false) if tdepth > 0 => tdepth -= 1,
+            ("script", true) if tdepth == 0 => {}
+            (_, true) if TEXT_SWITCH.contains(&n) => return Some(i),
+            _ => {}
+        }
+    }
+    None
+}
+
 fn tag_seq(toks: &[Tok]) -> Vec<(String, bool)> {
     toks.iter()
         .filter_map(|t| match t {
@@ -140,8 +189,13 @@ pub fn check_input_ref(input: &[u8], reference_doc: Option<&str>, depth: Depth, 
         return Some(format!("non-strict run failed: {}", lax_all.res.short()));
     }
     let lax_toks = normalise_impl(lax_all.toks.clone());
+    let all_tags = tag_seq(&lax_toks);
+    let must = first_must_refuse(&all_tags);
     match &strict_all.res {
         CallRes::Ok => {
+            if let Some(m) = must {
+                return Some(format!("missing strict-mode refusal: text-mode-switching start tag <{}> (tag #{m} of the document) is inside select / template-in-select or after frameset, but the strict run succeeded", all_tags[m].0));
+            }
             let st = normalise_impl(strict_all.toks.clone());
             if st != w {
                 return Some(format!("strict run succeeded but its tokens differ from the WHATWG tokenizer+tree builder: {}", describe_diff(&st, &w)));
@@ -229,6 +283,11 @@ pub fn check_input_ref(input: &[u8], reference_doc: Option<&str>, depth: Depth, 
             let tags = tag_seq(&lax_toks[..=idx]);
             if let Err(e) = r_guard(&tags) {
                 return Some(format!("unjustified strict-mode refusal: {e}"));
+            }
+            if let Some(m) = must {
+                if m + 1 < tags.len() {
+                    return Some(format!("late strict-mode refusal: <{}> (tag #{m}) already had to be refused, the run failed only at tag #{}", all_tags[m].0, tags.len() - 1));
+                }
             }
             if !input.starts_with(&strict_all.out) {
                 return Some("refused run emitted something that is not a prefix of the input".into());
@@ -480,6 +539,39 @@ fn start_tag_syntax_sweep(ctx: &Ctx, name: &str, max_pieces: usize, depth: Depth
     }
 }
 
+/// Ambiguity-guard alphabet: select / template / frameset structure x complete text-mode elements
+/// (content that looks like markup), so that long guard histories are reached.
+const GUARD_FRAGS: &[&str] = &[
+    "<select>", "</select>", "<template>", "</template>", "<option>", "x", "<frameset>", "</frameset>", "<input>", "<keygen>",
+    "<style><p>x</p></style>", "<script><p>x</p></script>", "<xmp><p></xmp>", "<noframes><p></noframes>", "<title><p></title>",
+    "<textarea><p></textarea>", "<p>",
+];
+
+fn guard_sweep(ctx: &Ctx, name: &str, max: usize) {
+    let k = GUARD_FRAGS.len();
+    let n = count_upto(k, max);
+    par_for(n, 64, |j| {
+        if ctx.over_time() {
+            return;
+        }
+        let mut idx = vec![];
+        let mut raw = vec![];
+        seq_at(j, k, &mut idx);
+        render_frags(GUARD_FRAGS, &idx, &mut raw);
+        if let Some(msg) = check_input(&raw, Depth::L0, Some(ctx)) {
+            let msg = check_input(&raw, Depth::L1, None).unwrap_or(msg);
+            report(ctx, &raw, msg, None);
+        }
+        ctx.states.insert(digest(&raw));
+        if j % 200_003 == 13 {
+            ctx.sample(json!({"space": "guard alphabet", "input": lossy(&raw)}));
+        }
+    });
+    if !ctx.capped.load(std::sync::atomic::Ordering::Relaxed) {
+        ctx.level_done(name);
+    }
+}
+
 fn g_sweep(ctx: &Ctx, name: &str, max_nodes: usize, depth: Depth) {
     let docs = g_documents(max_nodes);
     ctx.set_extra("g_documents", json!(docs.len()));
@@ -518,6 +610,7 @@ pub fn run_check(ctx: &Ctx) -> i32 {
         ctx_sweep(ctx, "17 HTML contexts x Fcore<=3 x L0", F_CORE, 3, Depth::L0);
         g_sweep(ctx, "G<=6 nodes x L0,L1", 6, Depth::L1);
         start_tag_syntax_sweep(ctx, "12 element names x attribute-syntax pieces<=4 x L0,L1", 4, Depth::L1);
+        guard_sweep(ctx, "17-fragment ambiguity-guard alphabet (select/template/frameset structure x complete text-mode elements) <=5 x L0, refusal required AND justified", 5);
     } else {
         soup_sweep(ctx, "F<=3 x 7 capture sets x strict{t,f} x L0,L1 + public handlers", Space::Frags { k, max: 3 }, Depth::L1);
         soup_sweep(ctx, "Fcore<=4 x L0,L1", Space::Frags { k: F_CORE, max: 4 }, Depth::L1);
@@ -526,6 +619,7 @@ pub fn run_check(ctx: &Ctx) -> i32 {
         ctx_sweep(ctx, "17 HTML contexts x Fcore<=4 x L0", F_CORE, 4, Depth::L0);
         g_sweep(ctx, "G<=7 nodes x L0,L1", 7, Depth::L1);
         start_tag_syntax_sweep(ctx, "12 element names x attribute-syntax pieces<=5 x L0,L1", 5, Depth::L1);
+        guard_sweep(ctx, "17-fragment ambiguity-guard alphabet (select/template/frameset structure x complete text-mode elements) <=6 x L0, refusal required AND justified", 6);
     }
     ctx.finish(
         "model_checking",
@@ -533,7 +627,7 @@ pub fn run_check(ctx: &Ctx) -> i32 {
         &[
             "html5ever 0.39 (Tokenizer + TreeBuilder over RcDom, scripting enabled) is trusted as the WHATWG reference",
             "alphabet F contains no '&', NUL or CR so text compares exactly (html5ever decodes entities and normalises those)",
-            "R-guard is one-directional (a refusal must be in a select/template-in-select/frameset context); a missing refusal shows up as a token mismatch against html5ever",
+            "a refusal must be justified by the loose reading of the contexts (R-guard: any select still syntactically open, any earlier frameset); a refusal is REQUIRED at the first text-mode-switching start tag inside select/template-in-select/after frameset per the documented contexts (html5ever implements the relaxed select parsing, so it cannot show a missing refusal)",
         ],
         true,
     )
